@@ -381,6 +381,75 @@ theorem handle_future_resolves (cfg : Cfg) (s : State) (h : Reachable cfg s) :
     | exited =>
       exact ⟨[], s, rfl, by simp, fin s hph hi⟩
 
+/-- The acceptor is listening, a `shutdown(m)` call is pending, the dispatch counters are in range and no
+    worker inbox is closed. -/
+def TakeReady (cfg : Cfg) (m : Mode) (s : State) : Prop :=
+  s.acc.phase = .listening ∧ m ∈ s.acc.calls ∧ s.acc.next < cfg.n ∧ s.acc.tries ≤ cfg.n ∧
+    ∀ w, (s.w w).closed = false
+
+theorem take_now (cfg : Cfg) (m : Mode) (s : State) (h : TakeReady cfg m s) (hc : s.acc.cur = none) :
+    ∃ s', run cfg s [.accShutdown m] = some s' ∧ s'.acc.phase = .sending m 0 := by
+  obtain ⟨h1, h2, _, _, _⟩ := h
+  simp [run, step, h1, h2, hc]
+
+theorem take_after_dispatch (cfg : Cfg) (m : Mode) (k : Nat) :
+    ∀ (s : State) (c : Nat), TakeReady cfg m s → s.acc.cur = some c → cfg.n - s.acc.tries = k →
+      ∃ es s', run cfg s es = some s' ∧ s'.acc.phase = .sending m 0 ∧ es.length ≤ k + 2 := by
+  induction k with
+  | zero =>
+    intro s c h hc hk
+    obtain ⟨h1, h2, h3, h4, h5⟩ := h
+    have ht : s.acc.tries = cfg.n := by omega
+    have hd : ∃ s₁, step cfg s (.dropConn c) = some s₁ ∧ TakeReady cfg m s₁ ∧ s₁.acc.cur = none := by
+      simp [step, h1, hc, ht, TakeReady, h2, h3, h5]
+    obtain ⟨s₁, g1, g2, g3⟩ := hd
+    obtain ⟨s', g4, g5⟩ := take_now cfg m s₁ g2 g3
+    exact ⟨[.dropConn c, .accShutdown m], s', by simpa [run, g1] using g4, g5, by simp⟩
+  | succ k ih =>
+    intro s c h hc hk
+    obtain ⟨h1, h2, h3, h4, h5⟩ := h
+    have ht : s.acc.tries < cfg.n := by omega
+    by_cases hq : (s.w s.acc.next).queue.length < cfg.cap
+    · have hd : ∃ s₁, step cfg s (.dispatch c s.acc.next .ok) = some s₁ ∧ TakeReady cfg m s₁ ∧ s₁.acc.cur = none := by
+        refine ⟨_, by simp [step, h1, hc, ht, h3, h5, hq]; rfl, ?_, by simp⟩
+        refine ⟨by simp, by simp [h2], by simp [h3], by simp [h4], fun w => ?_⟩
+        simp only [setC_w, setW_w, setAcc_w]
+        split <;> simp [h5]
+      obtain ⟨s₁, g1, g2, g3⟩ := hd
+      obtain ⟨s', g4, g5⟩ := take_now cfg m s₁ g2 g3
+      exact ⟨[.dispatch c s.acc.next .ok, .accShutdown m], s', by simpa [run, g1] using g4, g5, by simp⟩
+    · have hd : ∃ s₁, step cfg s (.dispatch c s.acc.next .full) = some s₁ ∧ TakeReady cfg m s₁ ∧
+          s₁.acc.cur = some c ∧ cfg.n - s₁.acc.tries = k := by
+        refine ⟨_, by simp [step, h1, hc, ht, h3, h5, Nat.le_of_not_lt hq]; rfl, ?_, by simp, by simp; omega⟩
+        exact ⟨by simp, by simp [h2], by simp; exact Nat.mod_lt _ (by omega), by simp; omega, fun w => by simp [h5]⟩
+      obtain ⟨s₁, g1, g2, g3, g4⟩ := hd
+      obtain ⟨es, s', g5, g6, g7⟩ := ih s₁ c g2 g3 g4
+      exact ⟨.dispatch c s.acc.next .full :: es, s', by simpa [run, g1] using g5, g6, by simp; omega⟩
+
+/-- **C16 (5') the command is always taken.** In every reachable state in which the acceptor still listens
+    and a `shutdown(m)` call is pending, the acceptor's dispatch loop for the connection in hand (if any)
+    terminates after at most `n` non-blocking `try_send`s — handing the connection over or dropping it — and the
+    command is taken: no state in which the acceptor listens can block a pending shutdown. Together with
+    `handle_future_resolves` the acceptor reaches `exited` by at most `2 n + 6` of its own steps. -/
+theorem shutdown_command_taken (cfg : Cfg) (hn : 0 < cfg.n) (s : State) (h : Reachable cfg s)
+    (hp : s.acc.phase = .listening) (m : Mode) (hm : m ∈ s.acc.calls) :
+    ∃ es s', run cfg s es = some s' ∧ s'.acc.phase = .sending m 0 ∧ es.length ≤ cfg.n + 2 := by
+  have hi := inv_reachable h
+  have hr : TakeReady cfg m s := by
+    refine ⟨hp, hm, hi.ranges.1 hn, hi.ranges.2, fun w => ?_⟩
+    have := hi.coupling w (by simp [hp, sentTo])
+    exact this.2.2.1
+  cases hc : s.acc.cur with
+  | none =>
+    obtain ⟨s', g1, g2⟩ := take_now cfg m s hr hc
+    exact ⟨_, s', g1, g2, by simp⟩
+  | some c =>
+    obtain ⟨es, s', g1, g2, g3⟩ := take_after_dispatch cfg m (cfg.n - s.acc.tries) s c hr hc rfl
+    exact ⟨es, s', g1, g2, by omega⟩
+
+example : (run cfg1 init (demoGraceful.take 8)).map (fun s => decide (s.acc.phase = .listening ∧
+    Mode.graceful ∈ s.acc.calls ∧ (s.c 1).phase = .queued)) = some true := by decide
+
 example : (run cfg1 init (demoGraceful.take 12)).map (fun s => decide (s.acc.phase = .waiting ∧
     (s.c 0).phase = .inflight ∧ (s.c 1).phase = .queued ∧ (s.w 0).phase = .running)) = some true := by decide
 
